@@ -447,6 +447,14 @@ func (d *driver) runMultiproof(w emitter, pid int, pr *proofProg) {
 			w.emit(ve)
 		}
 		verify(0, perturbSpec{What: "none"}, label, proof, Cs, ys, zs)
+		// the prover has normalised the commitments (Z = 1): the verifier also has to be right on other representatives of the same
+		// elements.  Every third program: random projective / flipped representatives; every third: STRUCTURED Z coordinates whose
+		// product over the list is one although hardly any is one (reciprocal pairs, a compensating last element) - the honest
+		// statement must be accepted again, with the same transcript state
+		if mode := pid % 3; mode != 2 && n >= 1 {
+			rerepresent(Cs, mode == 1, rnd)
+			verify(50, perturbSpec{What: "none", To: []string{"rerep", "zprod"}[mode]}, label, proof, Cs, ys, zs)
+		}
 		if len(pr.Perturb) == 0 && n <= 40 {
 			// a verification that ERRORS (seven L points, then none at all), then the honest statement once more: whatever the failing
 			// calls leave behind must not change the honest verdict
@@ -842,6 +850,60 @@ func failingProverCalls(cfg *ipa.IPAConfig, k int) {
 			defer func() { recover() }()
 			_, _ = multiproof.CreateMultiProof(common.NewTranscript("failing"), cfg, c.cs, c.fs, c.zs)
 		}()
+	}
+}
+
+// rerepresent rewrites every distinct element of the list as another representative (lambda*x : lambda*y : lambda), possibly of the class
+// twin (-x, -y).  zprod: the lambdas are chosen so that the product of the Z coordinates over the whole LIST is one (the last distinct
+// element that occurs once compensates; with fewer than two elements: Z = -1 ... which squares to one over a doubled list).
+func rerepresent(cs []*banderwagon.Element, zprod bool, rnd *prg) {
+	var distinct []*banderwagon.Element
+	mult := map[*banderwagon.Element]int{}
+	for _, c := range cs {
+		if mult[c] == 0 {
+			distinct = append(distinct, c)
+		}
+		mult[c]++
+	}
+	set := func(e *banderwagon.Element, lambda *big.Int, flip bool) {
+		x, y, z := banderwagon.VerifCoords(e)
+		zi := new(big.Int).ModInverse(fpRegBig(&z), modP)
+		if zi == nil {
+			return
+		}
+		ax := mulm(fpRegBig(&x), zi)
+		ay := mulm(fpRegBig(&y), zi)
+		if flip {
+			ax.Sub(modP, ax).Mod(ax, modP)
+			ay.Sub(modP, ay).Mod(ay, modP)
+		}
+		*e = banderwagon.VerifFromCoords(fpFromBig(mulm(ax, lambda)), fpFromBig(mulm(ay, lambda)), fpFromBig(lambda))
+	}
+	comp := -1 // the compensating element: the last one that occurs exactly once
+	if zprod {
+		for i, c := range distinct {
+			if mult[c] == 1 {
+				comp = i
+			}
+		}
+	}
+	prod := big.NewInt(1)
+	for i, c := range distinct {
+		if i == comp {
+			continue
+		}
+		l := rnd.big(250)
+		l.Add(l, big.NewInt(2))
+		if zprod && comp < 0 {
+			l = new(big.Int).Sub(modP, big.NewInt(1)) // no element occurs once: every Z = -1
+		}
+		set(c, l, rnd.intn(2) == 1)
+		for k := 0; k < mult[c]; k++ {
+			prod = mulm(prod, l)
+		}
+	}
+	if comp >= 0 {
+		set(distinct[comp], new(big.Int).ModInverse(prod, modP), rnd.intn(2) == 1)
 	}
 }
 
